@@ -6,7 +6,9 @@ Ties: T  go2lean → Gen/Fees.lean:isAbsent (closed form proved in Props/C27T.le
          (bitsMatch, FindChallenge, challenge.Failed) vs the same model, plus the real isAbsent vs Spec.Fees.absent and vs the regenerated definition.
 Monitor (implementation alone): whenever the real Eval accepts a block, every listed account satisfies the closed-form justification
 computed here, in python, from the population in the op line."""
+import os
 import common
+import vf
 
 M64 = 1 << 64
 
@@ -227,7 +229,11 @@ def run(ctx, replay_ops=None):
                        "accounts touched in the block); trivial = both lists empty; distinct = distinct op lines")
     want = lambda ks: replay_ops is None or any(o.split(" ", 1)[0] in ks for o in replay_ops)
     if want(("ev", "gen")):
-        r = common.correspondence(ctx, pkg="./ledger/eval", test="TestVerifC27", name="c27", drivers=[("c27", [], "model")], env=env,
+        e1 = dict(env)
+        corpus = os.path.join(vf.VERIF, "corpus", "C27", "seed.ops")
+        if os.path.exists(corpus):
+            e1["VERIF_C27_CORPUS"] = corpus
+        r = common.correspondence(ctx, pkg="./ledger/eval", test="TestVerifC27", name="c27", drivers=[("c27", [], "model")], env=e1,
                                   trivial=trivial, kind_of=kind_of, monitor=monitor, model_is_spec=True,
                                   what="real block evaluation differs from the proved knock-offline model", replay_ops=replay_ops)
         if r:
